@@ -1,5 +1,6 @@
 import ShVerif.Model.C16
 import ShVerif.Proofs.C16
+import ShVerif.Proofs.C16b
 /-
   C16 — Brace expansion matches bash.  Property theorems.  A statement that is false of the model
   (hence of the Go code: the model is tied to it on every run) is kept as `def …_statement`, with
@@ -154,11 +155,8 @@ def overflowWitness : Bytes :=
   [123, 57, 50, 50, 51, 51, 55, 50, 48, 51, 54, 56, 53, 52, 55, 55, 53, 56, 48, 54, 46, 46,
    57, 50, 50, 51, 51, 55, 50, 48, 51, 54, 56, 53, 52, 55, 55, 53, 56, 48, 55, 125]
 
-theorem limit_iff_counterexample : ¬ limit_iff_statement := by
-  intro h
-  have hcount : ¬ count (splitBraces overflowWitness).1 > limit := by decide
-  apply hcount
-  apply (h overflowWitness).mp
+/-- The expansion of the overflow witness is the limit error. -/
+theorem overflow_witness_limit : isLimitErr (expand (splitBraces overflowWitness).1) = true := by
   have htree : (splitBraces overflowWitness).1 =
       [.brace true [[.lit (overflowWitness.drop 1 |>.take 19)], [.lit (overflowWitness.drop 22 |>.take 19)]],
        .lit []] := by rfl
@@ -166,5 +164,57 @@ theorem limit_iff_counterexample : ¬ limit_iff_statement := by
   apply expand_single_seq_limit _ _ (mkSeq 9223372036854775806 9223372036854775807 1) (by rfl)
   -- two values, then the wrapped −2^63 and the 16383 values after it
   exact seqVals_overflow_len _ rfl rfl rfl (limit - 1) (by decide)
+
+theorem limit_iff_counterexample : ¬ limit_iff_statement := by
+  intro h
+  have hcount : ¬ count (splitBraces overflowWitness).1 > limit := by decide
+  exact hcount ((h overflowWitness).mp overflow_witness_limit)
+
+/-! ## Equivalence with bash -/
+
+/-- Go side of the equivalence, for every well-formed brace expression tree `t` (nested list
+    groups with ≥ 2 alternatives, valid sequences, literals of ordinary bytes): splitting the
+    *text* of `t` and expanding gives the denotation of `t` — alternatives in order, ideal
+    sequences, left-major products — or the limit error iff it has more than 16384 elements. -/
+theorem expand_canon (t : Word) (hc : canon t = true) (hno : noOv t = true) :
+    expand (splitBraces (render t)).1 =
+      if count t > limit then .error .limit else .ok (denot t) := by
+  obtain ⟨hd, hn⟩ := split_canon_denot t hc
+  rw [expand_spec _ (wf_split _) (by rw [hn]; exact hno), hd]
+  have : count (splitBraces (render t)).1 = count t := by
+    rw [← denot_length, ← denot_length, hd]
+  rw [this]
+
+/-- "Expanding the word gives exactly the list of words bash's brace expansion gives, or an error
+    only when that list would exceed the 16384-element limit" — for every literal word. -/
+def bash_equiv_statement : Prop :=
+  ∀ w : Bytes, cDollar ∉ w →
+    (isLimitErr (expand (splitBraces w).1) = true ↔ bashCount w > limit) ∧
+    (bashCount w ≤ limit → expand (splitBraces w).1 = .ok (bashBraces w))
+
+/-- `{a},}`: bash keeps scanning after a `}` that closes a group without separator and expands
+    to `a}` and the empty word; SplitBraces closes the group at the first `}`
+    (finding C16-close-without-separator). -/
+theorem bash_equiv_counterexample : ¬ bash_equiv_statement := by
+  intro h
+  have h2 := (h [123, 97, 125, 44, 125] (by decide)).2 (by decide)
+  have e1 : expand (splitBraces [123, 97, 125, 44, 125]).1 = .ok [[123, 97, 125, 44, 125]] := by rfl
+  have e2 : bashBraces [123, 97, 125, 44, 125] = [[97, 125], []] := by rfl
+  rw [e1, e2] at h2
+  cases h2
+
+/-- `{a..{b,c}}`: bash drops the outer braces (`a..b a..c`), mvdan/sh keeps them
+    (finding C16-invalid-seq-nested-a). -/
+theorem bash_equiv_counterexample_nested :
+    expand (splitBraces [123, 97, 46, 46, 123, 98, 44, 99, 125, 125]).1 =
+      .ok [[123, 97, 46, 46, 98, 125], [123, 97, 46, 46, 99, 125]] ∧
+    bashBraces [123, 97, 46, 46, 123, 98, 44, 99, 125, 125] =
+      [[97, 46, 46, 98], [97, 46, 46, 99]] := by
+  constructor <;> rfl
+
+/-- The overflow witness: bash's list has 2 elements, the expansion is the limit error. -/
+theorem bash_equiv_counterexample_overflow :
+    bashCount overflowWitness = 2 ∧ isLimitErr (expand (splitBraces overflowWitness).1) = true :=
+  ⟨by rfl, overflow_witness_limit⟩
 
 end ShVerif.C16
